@@ -110,3 +110,50 @@ pub fn flatten_same_view() {
     // same (off, len, cap) as the nested view, pointer-level
     check_view(&mut f, &m2);
 }
+
+// ---------------------------------------------------------------- other root kinds (depth 1: slice(a..) and uninit())
+macro_rules! root_harness {
+    ($name:ident, $mk:expr, $kind:expr, $view:ident) => {
+        #[kani::proof]
+        #[kani::unwind(6)]
+        pub fn $name() {
+            let len = any_le(CAP);
+            let root = $mk(len);
+            let init: &[u8] = root.as_init();
+            let m = Model::new(init.as_ptr() as usize, CAP, init, $kind);
+            let (mut b, mut m) = view!($view, root, m);
+            // inline-storage roots move with the view: take the allocation address where it lives now
+            m.base = b.as_inner().as_init().as_ptr() as usize;
+            fills(&mut b, &mut m);
+            let root = b.into_inner();
+            check_root(root.as_init(), &m);
+        }
+    };
+}
+fn mk_array(_len: usize) -> [u8; CAP] { [0x10, 0x11, 0x12, 0x13] }
+fn mk_box_array(_len: usize) -> Box<[u8; CAP]> { Box::new([0x10, 0x11, 0x12, 0x13]) }
+fn mk_arrayvec(len: usize) -> compio_buf::arrayvec::ArrayVec<u8, CAP> {
+    let mut v = compio_buf::arrayvec::ArrayVec::<u8, CAP>::new();
+    let mut i = 0; while i < len { v.push(0x10 + i as u8); i += 1; }
+    v
+}
+fn mk_bytesmut(len: usize) -> compio_buf::bytes::BytesMut {
+    let mut v = compio_buf::bytes::BytesMut::with_capacity(CAP);
+    kani::assume(v.capacity() == CAP);
+    let mut i = 0; while i < len { v.extend_from_slice(&[0x10 + i as u8]); i += 1; }
+    kani::assume(v.capacity() == CAP);
+    v
+}
+fn mk_smallvec(len: usize) -> compio_buf::smallvec::SmallVec<[u8; CAP]> {
+    let mut v = compio_buf::smallvec::SmallVec::<[u8; CAP]>::new();
+    let mut i = 0; while i < len { v.push(0x10 + i as u8); i += 1; }
+    v
+}
+// arrays report len == cap == N whatever `len` is
+fn fixed_len(_l: usize) -> usize { CAP }
+root_harness!(root_array_f, mk_array, RootKind::Fixed, F);
+root_harness!(root_box_array_f, mk_box_array, RootKind::Fixed, F);
+root_harness!(root_arrayvec_f, mk_arrayvec, RootKind::GrowOnly, F);
+root_harness!(root_arrayvec_u, mk_arrayvec, RootKind::GrowOnly, U);
+root_harness!(root_bytesmut_u, mk_bytesmut, RootKind::Exact, U);
+root_harness!(root_smallvec_u, mk_smallvec, RootKind::GrowOnly, U);
